@@ -127,6 +127,51 @@ def generic_param_rule(prop, project, result):
         result.error("%s.G1: %d of %d functions in the recorded scope no longer exist" % (prop, missing_fns, len(table)))
 
 
+def generic_argname_rule(prop, project, result):
+    """Cxx.G2: in the functions of this property's scope, a variable passed *positionally* into a parameter of another
+    name, while the callee also has a parameter of the variable's own name, is a swapped / shifted argument."""
+    import ast as _ast
+    from .calls import CallCtx
+    from .astutil import calls_in, norm
+    table = _scope().get(prop)
+    if not table:
+        return
+    r = result.rule("%s.G2" % prop, "positional arguments land in the parameter of their own name (no swapped / shifted arguments)")
+    index = {f.qualname: f for f in project.all_functions()}
+    for q in table:
+        f = index.get(q)
+        if f is None:
+            continue
+        r.instance(f)
+        ctx = CallCtx(project, f, f.cls)
+        for k in calls_in(f.node, include_nested=True):
+            if not k.args or any(isinstance(a, _ast.Starred) for a in k.args):
+                continue
+            ts = ctx.resolve_call(k)
+            if len(ts) != 1:
+                continue
+            t = ts[0]
+            callee = t.func
+            a = callee.node.args
+            pos = [x.arg for x in a.posonlyargs + a.args]
+            decs = callee.decorators()
+            is_method = callee.cls is not None and "staticmethod" not in decs
+            args = list(k.args)
+            if is_method and pos:
+                if t.how == "explicit-base":
+                    args = args[1:]
+                pos = pos[1:]
+            allp = set(pos) | {x.arg for x in a.kwonlyargs}
+            for i, arg in enumerate(args):
+                if i >= len(pos) or not isinstance(arg, _ast.Name):
+                    continue
+                if arg.id != pos[i] and arg.id in allp:
+                    r.violation(f, k, "`%s` passes the variable `%s` positionally into parameter `%s` of %s, which also has a parameter called `%s`: the arguments are swapped or shifted"
+                                % (norm(k)[:70], arg.id, pos[i], callee.short, arg.id))
+                else:
+                    r.ok()
+
+
 def run_rules(mod, project, tier="quick", result=None, generic=True):
     result = result or Result(mod.PROP, tier)
     rules = list(mod.RULES)
@@ -145,8 +190,9 @@ def run_rules(mod, project, tier="quick", result=None, generic=True):
     if generic:
         try:
             generic_param_rule(mod.PROP, project, result)
+            generic_argname_rule(mod.PROP, project, result)
         except Exception as e:
-            result.error("generic_param_rule: internal error %s: %s" % (type(e).__name__, e))
+            result.error("generic rules: internal error %s: %s" % (type(e).__name__, e))
     anchor_filter(mod.PROP, result)
     return result
 
